@@ -43,7 +43,13 @@ var (
 	big10  = big.NewInt(10)
 	p10mu  sync.Mutex
 	p10tab = []*big.Int{big.NewInt(1)}
+	p10big []p10entry
 )
+
+type p10entry struct {
+	n int64
+	v *big.Int
+}
 
 // p10 returns 10^n (n >= 0); the result is shared and must not be modified.
 func p10(n int64) *big.Int {
@@ -52,8 +58,32 @@ func p10(n int64) *big.Int {
 	}
 	p10mu.Lock()
 	defer p10mu.Unlock()
-	if n > 200000 {
-		return new(big.Int).Exp(big10, big.NewInt(n), nil)
+	if n > 5000 {
+		// large powers (far-apart additive operands): small cache; a miss next to a
+		// cached power costs one multiplication instead of a full exponentiation
+		for _, e := range p10big {
+			if e.n == n {
+				return e.v
+			}
+		}
+		var v *big.Int
+		for _, e := range p10big {
+			if d := n - e.n; d > 0 && d < int64(len(p10tab)) {
+				v = new(big.Int).Mul(e.v, p10tab[d])
+				break
+			} else if d < 0 && -d < int64(len(p10tab)) {
+				v = new(big.Int).Quo(e.v, p10tab[-d])
+				break
+			}
+		}
+		if v == nil {
+			v = new(big.Int).Exp(big10, big.NewInt(n), nil)
+		}
+		if len(p10big) >= 12 {
+			p10big = p10big[1:]
+		}
+		p10big = append(p10big, p10entry{n, v})
+		return v
 	}
 	for int64(len(p10tab)) <= n {
 		p10tab = append(p10tab, new(big.Int).Mul(p10tab[len(p10tab)-1], big10))
